@@ -5,6 +5,7 @@
   restore the encoded originals); see DESIGN.md.
 -/
 import RSVerif.Proofs.Access
+import RSVerif.Properties.C01
 
 namespace RS
 
@@ -38,5 +39,28 @@ theorem all_given_empty' (lw : Array Nat) (d : Decoder) (rate : Rate) (w : DecWo
     (hin : d.inner = .some rate w) (hinv : DecWork.Inv rate w) (hall : w.orecv = w.k) :
     d.decode lw = (.ok [], { d with inner := .some rate w.resetReceived }) :=
   decode_all_given hin hinv hall
+
+/-- surplus independence, byte level (corollary of the round-trip theorem C01): with the same
+    given originals `os`, ANY two accepted recovery sets that are each sufficient — in particular a
+    sufficient set and any superset of it, added in any order — restore exactly the same shards -/
+theorem surplus_indep (staleE staleD : Stale) (kindE kindD : Kind) (schedE schedD : Sched)
+    (k r sb : Nat) (orig : List (Array Nat))
+    (hlen : orig.length = k) (hsz : ∀ i, i < k → (orig.getD i #[]).size = sb)
+    (hbytes : ∀ i, i < k → ∀ t, t < sb → (orig.getD i #[]).getD t 0 < 256)
+    (rate : Rate) (hrE : chooseRate kindE k r = .ok rate) (hrD : chooseRate kindD k r = .ok rate)
+    (e0 e1 : Encoder) (hnewE : Encoder.new staleE kindE schedE k r sb none = .ok e0)
+    (hadd : oneShotEncode.addAll e0 orig = .ok e1)
+    (recs : List (Array Nat)) (henc : e1.encode.1 = .ok recs)
+    (os rs rs' : List Nat) (d0 d1 d2 d2' : Decoder)
+    (hnewD : Decoder.new staleD kindD schedD k r sb none = .ok d0)
+    (hO : addAllOriginal d0 (os.map fun i => (i, orig.getD i #[])) = .ok d1)
+    (hR : addAllRecovery d1 (rs.map fun j => (j, recs.getD j #[])) = .ok d2)
+    (hR' : addAllRecovery d1 (rs'.map fun j => (j, recs.getD j #[])) = .ok d2')
+    (henough : k ≤ os.length + rs.length) (henough' : k ≤ os.length + rs'.length) :
+    (d2.decode logWalshArr).1 = (d2'.decode logWalshArr).1 := by
+  rw [roundtrip staleE staleD kindE kindD schedE schedD k r sb orig hlen hsz hbytes rate hrE hrD e0 e1
+        hnewE hadd recs henc os rs d0 d1 d2 hnewD hO hR henough,
+      roundtrip staleE staleD kindE kindD schedE schedD k r sb orig hlen hsz hbytes rate hrE hrD e0 e1
+        hnewE hadd recs henc os rs' d0 d1 d2' hnewD hO hR' henough']
 
 end RS
